@@ -77,6 +77,9 @@ RULE = ("cases = (draw method, model / chart, object class, composite shape, "
         "get_polygon_arcpath; histories draw -> public setter (set_endpoints, "
         "set_center_ref, coords(model, data), item assignment, set) -> draw again for "
         "segments, geodesics, polygons (and their get_edges()), points, horospheres; "
+        "custom windows of the drawing constructors (xlim / ylim wider, shifted, "
+        "asymmetric, one of the two, narrower) with objects inside the custom window "
+        "and outside the default one, incl. exactly vertical half-plane edges; "
         "sign classes of the homogeneous "
         "representatives (positive / negative "
         "/ alternating per unit or per vertex) and the drawing transform written as "
@@ -171,6 +174,24 @@ def all_axes(drawing):
             if all(ax is not a for a in axes):
                 axes.append(ax)
     return axes
+
+
+def window_of(drawing):
+    """((x0, x1), (y0, y1)) of the window actually shown: the limits of the
+    drawing's Axes, not attributes the drawing class caches about them."""
+    return (tuple(float(v) for v in drawing.ax.get_xlim()),
+            tuple(float(v) for v in drawing.ax.get_ylim()))
+
+
+def offscreen_of(drawing, factor):
+    """(left, right), up: where 'off screen' begins for the window actually
+    shown, with the margin drawtools defines (OFFSCREEN_FACTOR of the width /
+    height), computed from the Axes limits -- never read from the drawing's
+    cached left/right/up_infinity (seeded change C19-r7-1: bounds computed from
+    the model's default window and not recomputed for a custom one)."""
+    (x0, x1), (y0, y1) = window_of(drawing)
+    f = float(factor)
+    return (x0 - f * (x1 - x0), x1 + f * (x1 - x0)), y1 + f * (y1 - y0)
 
 
 def snapshot(call):
@@ -302,6 +323,14 @@ def setup(run):
                              "%s added no artist to the drawing's Axes" % method, case)
             return None
         m_place.ok()
+        want = getattr(drawing, "_gtmon_window", None)
+        if want is not None:
+            # the window the constructor was asked for is the window shown
+            got = window_of(drawing)
+            dev = max(abs(a - b_) for w_, g_ in zip(want, got) for a, b_ in zip(w_, g_))
+            m_place.require(dev <= 1e-9, "placement/%s/window-not-the-requested-one" % method,
+                            "the drawing's Axes show %r, the constructor was given xlim, ylim = %r"
+                            % (got, want), case)
         A, src = transform_matrix(drawing)
         if A is None:
             return None
@@ -345,7 +374,7 @@ def setup(run):
             return m_poly.fail("polygon-path/wrong-number-of-patches/%s" % model,
                                "%d PathPatch(es) for %d polygons" % (len(patches), len(K)), case)
         thr = float(D.RADIUS_THRESHOLD)      # draw_polygon has no threshold option
-        view = (float(drawing.left_infinity), float(drawing.right_infinity))
+        view = offscreen_of(drawing, D.OFFSCREEN_FACTOR)[0]
         for patch, k, knd in zip(patches, K, kinds):
             judge_path(patch.get_path(), k, knd, model, thr, view, case, nv)
 
@@ -408,7 +437,7 @@ def setup(run):
             return
         knd = rh.kind(data, 1e-9)
         k = rc.klein_of_proj(data)
-        view = (float(drawing.left_infinity), float(drawing.right_infinity))
+        view = offscreen_of(drawing, D.OFFSCREEN_FACTOR)[0]
         case = {"method": "HyperbolicDrawing.get_polygon_arcpath", "model": model, "proj_data": data,
                 "current_case": run.current_case}
         judge_path(call.result, k, knd, model, float(thr), view, case, data.shape[0],
@@ -447,7 +476,7 @@ def setup(run):
         if len(patches) != len(K):
             return m_geo.fail("geodesic-artist/wrong-number-of-patches/%s" % model,
                               "%d patches for %d objects" % (len(patches), len(K)), case)
-        view = (float(drawing.left_infinity), float(drawing.right_infinity))
+        view = offscreen_of(drawing, D.OFFSCREEN_FACTOR)[0]
         for patch, x, k, knd in zip(patches, X, K, kinds):
             ucase = dict(case, klein_endpoints=k, patch=type(patch).__name__)
             if not np.all(np.isin(knd, ("interior", "ideal"))):
@@ -479,6 +508,29 @@ def setup(run):
                                        "a straight path is drawn although the reference radius %.5g is "
                                        "below the threshold %g" % (r0, thr),
                                        dict(ucase, reference_radius=r0, threshold=thr))
+                            continue
+                    # (nearly) vertical geodesic between interior points that are
+                    # themselves away from infinity and inside the window: the straight
+                    # substitute is prescribed exactly (from the first endpoint vertically
+                    # to the second endpoint's height) and involves no ideal point --
+                    # judged with the interior points' own tolerance.  Seeded change
+                    # C19-r7-1 (segment treated as running off screen in a custom window).
+                    kd = float(np.min(rc.inf_distance(k)))
+                    if kd >= INF_MARGIN and np.all(knd == "interior") and isinstance(patch, PathPatch):
+                        with np.errstate(all="ignore"):
+                            _, r0 = rc.geodesic_circle(k[0], k[1], model)
+                        pm0 = rc.model_of_klein(k[0], model)
+                        qm0 = rc.model_of_klein(k[1], model)
+                        inview = all(view[0] + 1e-6 <= z[0] <= view[1] - 1e-6 for z in (pm0, qm0))
+                        v = np.asarray(patch.get_path().vertices, dtype=float)
+                        if (not np.isfinite(r0) or r0 >= 10 * thr) and inview and v.shape == (2, 2):
+                            expect = np.stack([pm0, np.array([pm0[0], qm0[1]])])
+                            tol = 1e-5 * (1 + float(np.max(np.abs(expect)))) * max(1.0, 0.3 / kd) ** 2
+                            judge(run, m_geo, float(np.max(np.abs(v - expect))), tol,
+                                  "geodesic-artist/substitute-endpoints/%s" % model,
+                                  "the straight substitute of a vertical geodesic does not run between "
+                                  "the prescribed points", dict(ucase, path_vertices=v, expected=expect))
+                            arm(run, "geodesic/straight")
                             continue
                     m_geo.skip("near the half-plane's point at infinity")
                     continue
@@ -660,9 +712,10 @@ def setup(run):
                                    "threshold" % (len(rects), nbad), case)
             hts = rc.halfspace_of_proj(X[~good, 1, :])[:, 1]
             for rect, h in zip(rects, hts):
+                wx, wy = window_of(drawing)
                 okr = abs(rect.get_y() - h) <= 1e-6 * (1 + abs(h)) and \
-                    rect.get_x() <= drawing.xlim[0] and rect.get_x() + rect.get_width() >= drawing.xlim[1] \
-                    and rect.get_y() + rect.get_height() >= drawing.ylim[1]
+                    rect.get_x() <= wx[0] and rect.get_x() + rect.get_width() >= wx[1] \
+                    and rect.get_y() + rect.get_height() >= wy[1]
                 m_horo.require(okr, "horosphere-artist/rectangle-not-the-horoball/halfspace",
                                "the rectangle of a horoball centred at infinity does not start at "
                                "the reference point's height / does not cover the view", case)
@@ -872,7 +925,7 @@ def setup(run):
                 return m_proj.fail(pre + "wrong-number-of-patches",
                                    "%d patches for %d polygons that cross the line at infinity "
                                    "twice (two pieces each)" % (len(patches), ncross), case)
-            xlim, ylim = drawing.xlim, drawing.ylim
+            xlim, ylim = window_of(drawing)
             free = [rd.open_vertices(p.get_xy() if hasattr(p, "get_xy") else p.get_path().vertices)
                     for p in patches]
             first_switch = set()
